@@ -226,10 +226,10 @@ Proof. intros. split; reflexivity. Qed.
 (* members no draft gives a meaning to (e.g. "$metadata") are ignored by the
    compiler, wherever they occur in a schema object and whatever their value *)
 
-Lemma compile_member_unknown : forall rec d k v,
-  unknown_member k = true -> compile_member rec d k v = Ok [].
+Lemma compile_member_unknown : forall rec d root k v,
+  unknown_member k = true -> compile_member rec d root k v = Ok [].
 Proof.
-  intros rec d k v H. unfold unknown_member in H. apply andb_true_iff in H. destruct H as [Hm Hu].
+  intros rec d root k v H. unfold unknown_member in H. apply andb_true_iff in H. destruct H as [Hm Hu].
   apply negb_true_iff in Hm. apply negb_true_iff in Hu.
   unfold str_in, modelled_keywords in Hm. simpl in Hm.
   repeat match goal with
@@ -242,27 +242,27 @@ Proof.
   cbv beta iota zeta delta [orb]. rewrite Hu. reflexivity.
 Qed.
 
-Definition member_fn (d : draft) : string * json -> res (list ckw) :=
-  fun kv => compile_member (fun x => res_map fst (compile_node d x)) d (fst kv) (snd kv).
+Definition member_fn (d : draft) (root : bool) : string * json -> res (list ckw) :=
+  fun kv => compile_member (fun x => res_map fst (compile_node d false x)) d root (fst kv) (snd kv).
 
-Lemma compile_node_obj : forall d o,
-  compile_node d (JObj o) =
-  match res_map (@List.concat ckw) (seq_res (map (member_fn d) o)) with
+Lemma compile_node_obj : forall d root o,
+  compile_node d root (JObj o) =
+  match res_map (@List.concat ckw) (seq_res (map (member_fn d root) o)) with
   | Ok l => Ok (assemble d l, l)
   | Err e => Err e
   | Panic w => Panic w
   | Diverge => Diverge
   end.
 Proof.
-  intros d o.
-  change (compile_node d (JObj o)) with
-    (match seq_res (map (member_fn d) o) with
+  intros d root o.
+  change (compile_node d root (JObj o)) with
+    (match seq_res (map (member_fn d root) o) with
      | Ok cks => let l := List.concat cks in Ok (assemble d l, l)
      | Err e => Err e
      | Panic w => Panic w
      | Diverge => Diverge
      end).
-  destruct (seq_res (map (member_fn d) o)); reflexivity.
+  destruct (seq_res (map (member_fn d root) o)); reflexivity.
 Qed.
 
 Lemma seq_res_insert_nil : forall (l1 l2 : list (res (list ckw))),
@@ -298,10 +298,10 @@ Proof.
   destruct (jassoc "$schema" (o1 ++ o2)) as [[| | | u | |] |]; try reflexivity.
   - destruct (draft_of_url u) as [d |]; [| reflexivity].
     rewrite !compile_node_obj. rewrite map_app. simpl map.
-    unfold member_fn at 2. simpl fst. simpl snd. rewrite (compile_member_unknown _ d k v Hk).
+    unfold member_fn at 2. simpl fst. simpl snd. rewrite (compile_member_unknown _ d true k v Hk).
     rewrite seq_res_insert_nil. rewrite <- map_app. reflexivity.
   - rewrite !compile_node_obj. rewrite map_app. simpl map.
-    unfold member_fn at 2. simpl fst. simpl snd. rewrite (compile_member_unknown _ D2020 k v Hk).
+    unfold member_fn at 2. simpl fst. simpl snd. rewrite (compile_member_unknown _ D2020 true k v Hk).
     rewrite seq_res_insert_nil. rewrite <- map_app. reflexivity.
 Qed.
 
@@ -337,4 +337,31 @@ Proof.
     + constructor. intros s Hin.
       match goal with Hall : forall s, In s _ -> Valid E s j |- _ => apply Hall; right; exact Hin end.
   - intros [Hr Hrest]. inversion Hrest; subst. constructor. intros s [<- | Hin]; auto.
+Qed.
+
+(* ------------------------------------------------------------------ *)
+(* history independence: in every sequence of calls the i-th result is the result of
+   a fresh call with the same (data, schema): nothing is remembered between calls
+   (in particular nothing keyed by "$id") *)
+Theorem history_independent : forall calls i data schema,
+  nth_error calls i = Some (data, schema) ->
+  nth_error (run_history calls) i = Some (validate_data data schema).
+Proof.
+  induction calls as [| [d s] rest IH]; intros i data schema H.
+  - destruct i; discriminate.
+  - destruct i as [| i]; simpl in *.
+    + inversion H; subst. reflexivity.
+    + apply IH. exact H.
+Qed.
+
+Corollary history_prefix_irrelevant : forall pre1 pre2 data schema post1 post2,
+  nth_error (run_history (pre1 ++ (data, schema) :: post1)) (List.length pre1) =
+  nth_error (run_history (pre2 ++ (data, schema) :: post2)) (List.length pre2).
+Proof.
+  intros pre1 pre2 data schema post1 post2.
+  rewrite (history_independent (pre1 ++ (data, schema) :: post1) (List.length pre1) data schema).
+  - rewrite (history_independent (pre2 ++ (data, schema) :: post2) (List.length pre2) data schema).
+    + reflexivity.
+    + rewrite nth_error_app2 by auto. rewrite Nat.sub_diag. reflexivity.
+  - rewrite nth_error_app2 by auto. rewrite Nat.sub_diag. reflexivity.
 Qed.
